@@ -41,6 +41,12 @@ type c20Flow struct {
 	ChangeLen  int      `json:"change_script_len"` // 25 = P2PKH, otherwise a non-standard script of that length
 	BuyerInscr bool     `json:"buyer_receives_to_inscription_script"`
 	SellerLen  int      `json:"seller_receive_script_len,omitempty"` // 0 or 25 = P2PKH(seller); otherwise a non-standard script of that length
+	// FundShare: 0 every funding coin from its own transaction; 1 all from one
+	// transaction (same txid, different vout); 2 in pairs; 3 the first funding
+	// coin is another output of the ordinal's own transaction
+	FundShare int `json:"funding_txid_sharing,omitempty"`
+	// OrdTail: OP_RETURN metadata of an enriched inscription (items pushed after OP_RETURN); nil = plain inscription
+	OrdTail []mon.Hex `json:"ord_op_return_items,omitempty"`
 }
 
 type c20Inscr struct {
@@ -85,7 +91,14 @@ func c20JudgeFlow(c *mon.Ctx, f *c20Flow) {
 	ordScript := sellerScript
 	if f.OrdInscr {
 		t := bt.NewTx()
-		if err := t.Inscribe(&bscript.InscriptionArgs{LockingScriptPrefix: bscript.NewFromBytes(append([]byte{}, *sellerScript...)), Data: []byte("Hello, world!"), ContentType: "text/plain;charset=utf-8"}); err != nil {
+		ia := &bscript.InscriptionArgs{LockingScriptPrefix: bscript.NewFromBytes(append([]byte{}, *sellerScript...)), Data: []byte("Hello, world!"), ContentType: "text/plain;charset=utf-8"}
+		if len(f.OrdTail) > 0 {
+			ia.EnrichedArgs = &bscript.EnrichedInscriptionArgs{}
+			for _, it := range f.OrdTail {
+				ia.EnrichedArgs.OpReturnData = append(ia.EnrichedArgs.OpReturnData, append([]byte{}, it...))
+			}
+		}
+		if err := t.Inscribe(ia); err != nil {
 			c.Fault("cannot build an inscription output: " + err.Error())
 			return
 		}
@@ -97,8 +110,18 @@ func c20JudgeFlow(c *mon.Ctx, f *c20Flow) {
 	coins[outKey(ordUTXO.TxID, ordUTXO.Vout)] = c20Coin{1, append([]byte{}, *ordScript...)}
 	var utxos []*bt.UTXO
 	for i, v := range f.Funding {
-		id := crypto.Sha256(append(append([]byte{}, f.FundTxIDs...), byte(i)))
-		u := &bt.UTXO{TxID: id, Vout: uint32(i % 3), LockingScript: bscript.NewFromBytes(append([]byte{}, *buyerScript...)), Satoshis: v, Unlocker: &buyerUnlocker}
+		id, vout := crypto.Sha256(append(append([]byte{}, f.FundTxIDs...), byte(i))), uint32(i%3)
+		switch f.FundShare {
+		case 1:
+			id, vout = crypto.Sha256(append(append([]byte{}, f.FundTxIDs...), 0)), uint32(10+i)
+		case 2:
+			id, vout = crypto.Sha256(append(append([]byte{}, f.FundTxIDs...), byte(i/2))), uint32(10+i)
+		case 3:
+			if i == 0 {
+				id, vout = append([]byte{}, f.OrdTxID...), f.OrdVout+1
+			}
+		}
+		u := &bt.UTXO{TxID: id, Vout: vout, LockingScript: bscript.NewFromBytes(append([]byte{}, *buyerScript...)), Satoshis: v, Unlocker: &buyerUnlocker}
 		utxos = append(utxos, u)
 		coins[outKey(id, u.Vout)] = c20Coin{v, append([]byte{}, *buyerScript...)}
 	}
@@ -369,6 +392,10 @@ func init() {
 			f.BuyerInscr = r.Chance(1, 6)
 			if r.Chance(1, 4) {
 				f.SellerLen = prng.Pick(r, []int{1, 26, 35, 71, 105, 300})
+			}
+			f.FundShare = prng.Pick(r, []int{0, 0, 0, 1, 2, 3})
+			if f.OrdInscr && r.Chance(1, 2) { // enriched inscription: OP_RETURN metadata of one or more items, one-byte items included
+				f.OrdTail = prng.Pick(r, [][]mon.Hex{{{0x31}}, {{0x31, 0x32}}, {{0x00}}, {{0x31}, {0x32}}, {[]byte("app"), []byte("type"), []byte("ord")}, {r.Bytes(80)}, {{0x81}}})
 			}
 			n := 2 + r.Intn(5)
 			twoD := f.Flow == "listing-2d" || f.Flow == "bid-2d"
